@@ -39,6 +39,7 @@ def _case(draw, tier):
         spec = draw(gen.sd_circuit(input_types=gen.ALL_INPUTS, **kw))
     else:
         spec = draw(gen.sd_circuit(input_types=gen.ALL_INPUTS, cx=draw(st.booleans()), **kw))
+    spec = gen.unlearn(draw, spec, p=8)  # some frozen tensors (folded together with learnable ones of equal shape)
     return {"spec": spec, "semiring": sem, "vseed": draw(st.integers(0, 2**20)),
             "profile": draw(st.sampled_from(["normal", "normal", "ints"])), "xseed": draw(st.integers(0, 2**20)),
             "B": draw(st.sampled_from([1, 2, 3])), "wseed": draw(st.integers(0, 2**20)),
@@ -79,7 +80,7 @@ def run_case(case):
         vals = {t: np.asarray(v, dtype=np.float64).reshape(t.shape) for t, v in zip(tensors, case["values"])}
     for t in list(vals):  # keep away from the kinks of clamp (finite differences straddle them)
         v = vals[t]
-        if not np.iscomplexobj(v):
+        if not np.iscomplexobj(v) and "clamp" in str((getattr(t, "_vspec", None) or {}).get("k", "clamp")):
             vals[t] = np.where(np.abs(v) < 0.02, 0.05, v)
     dom = gen.domains_of(spec)
     X = gen.draw_inputs_rng(spec, case["xseed"], case["B"])
@@ -127,12 +128,18 @@ def run_case(case):
             if not spec_scope(spec):
                 y = y.unsqueeze(0).expand(X.shape[0], *y.shape)
         L = _functional_torch(y, sem, kind, w, u)
-        with sut(f"backward[{tag}]"):
-            L.backward()
+        if L.requires_grad:  # everything frozen and no continuous input: nothing to differentiate
+            with sut(f"backward[{tag}]"):
+                L.backward()
         g = {}
         for t in tensors:
             node, idx = comp.state.retrieve_compiled_parameter(t)
             gr = node._ptensor.grad
+            if not t.learnable:
+                if gr is not None and bool(torch.any(gr[idx] != 0)):
+                    raise Violation("frozen-parameter-has-gradient", f"{tag}:frozen-gets-gradient",
+                                    f"non-learnable tensor of shape {t.shape} received a gradient")
+                continue
             g[t] = np.zeros(t.shape) if gr is None else gr[idx].detach().numpy().copy()
         grads[tag] = g
         xgrads[tag] = None if (not cont_cols or xt.grad is None) else xt.grad.detach().numpy().copy()
@@ -155,7 +162,7 @@ def run_case(case):
 
     h = 1e-4
     checked = 0
-    for ti, t in enumerate(tensors if not hidden_zero else []):
+    for ti, t in enumerate([t for t in tensors if t.learnable] if not hidden_zero else []):
         d = rng.normal(size=t.shape)
         if np.iscomplexobj(vals[t]):
             d = d + 1j * rng.normal(size=t.shape)
@@ -195,7 +202,7 @@ def run_case(case):
     gmax = max([float(np.max(np.abs(a))) for a in g0.values() if a.size] + [0.0])
     if np.isfinite(gmax):
         for tag, g in grads.items():
-            for ti, t in enumerate(tensors):
+            for ti, t in enumerate([t for t in tensors if t.learnable]):
                 diff = np.abs(g[t] - g0[t])
                 if not np.all(diff <= 1e-6 * gmax + 1e-12 * S + 1e-300):
                     raise Violation("gradient-flag-independence", f"{tag}:differs-from-plain:{sem}",
@@ -206,6 +213,8 @@ def run_case(case):
                                                  f"profile:{case['profile']}"]
     if cont_cols:
         classes.append("input-gradient")
+    if any(not t.learnable for t in tensors):
+        classes.append("has-frozen-tensor")
     if any(np.iscomplexobj(v) for v in vals.values()):
         classes.append("complex-parameters")
     folded = max(tie.fold_counts(compiled["fold"]), default=1) > 1
